@@ -89,6 +89,14 @@ def run_property(pid, tier, seed, replay=None):
     if hygiene:
         broken.append("forbidden constructs: " + "; ".join(hygiene))
 
+    # the translator could not regenerate a fact this property's theorems are stated over: the committed default was
+    # used for it, so the theorems no longer speak about what the code says now - the tie is broken until a failing
+    # input is found (or the translator is taught the new shape of the code)
+    lost = [f for f in spec.get("facts", []) if f in facts.get("degraded", [])]
+    if lost:
+        broken.append("tools/srcfacts.py could not regenerate from the source: " + ", ".join(lost) +
+                      " (the committed default was used; the theorems are no longer tied to the code for these facts)")
+
     # ---- (T) builds for the tie
     ctx.driver, err = vlib.ocaml_build()
     if not ctx.driver:
